@@ -331,6 +331,10 @@ KEY_TRAITS = ("std::cmp::PartialEq", "std::cmp::Eq", "std::cmp::PartialOrd", "st
 # key types whose comparison is written by hand, with the rule that decides what it compares
 KEY_IMPLS_BY_HAND = {
     "internal::comparable_ast::ComparableAst": "C02.f decides which classes it may call equal",
+    # the cache key types: C13.a (part of the cache foundation of every property) checks hand-written impls field by field
+    "scanner_mode::ScannerMode": "C13.a decides that PartialEq / Hash read every field",
+    "pattern::Pattern": "C13.a decides that PartialEq / Hash read every field",
+    "pattern::Lookahead": "C13.a decides that PartialEq / Hash read every field",
 }
 
 
